@@ -28,6 +28,9 @@
 (*   polls  number of item evaluations so far (the executor polls the       *)
 (*          context once per item evaluation); env.cancelAt = k > 0 makes   *)
 (*          the k-th poll observe a done context;                           *)
+(* env.exm is TRUE while only existence is asked of the chain being         *)
+(* evaluated (the executor's found == nil); it matters to one named         *)
+(* deviation only.                                                          *)
 (*   ci     index into env.choice, the prophecy of the member order used at *)
 (*          each expansion of an object with two or more members.           *)
 (* Results are [items, err, st]: the items produced, in order, before the   *)
@@ -111,8 +114,9 @@ Flatten(xs, j, acc) ==
   IF j > Len(xs) THEN acc
   ELSE Flatten(xs, j + 1, IF xs[j].t = "arr" THEN acc \o xs[j].a ELSE Append(acc, xs[j]))
 
-Operand(chain, v, env, st, unwrap) ==
-  LET r == Exec(chain, 1, v, env, st, env.lax)
+Operand(chain, v, env0, st, unwrap) ==
+  LET env == [env0 EXCEPT !.exm = FALSE]     \* operands are collected into a list
+      r == Exec(chain, 1, v, env, st, env.lax)
   IN IF Failed(r) THEN r
      ELSE IF unwrap /\ env.lax THEN R(Flatten(r.items, 1, <<>>), "none", r.st) ELSE r
 
@@ -148,7 +152,7 @@ StartsWith(l, r) ==
 LikeRegex(n, l) ==
   IF l.t # "str" THEN PV("U")
   ELSE LET m == RegexMatch(n.pat, n.flags, l.s)
-       IN IF m = "opaque" THEN [val |-> "U", err |-> "opaque"] ELSE PV(IF m THEN "T" ELSE "F")
+       IN IF m = "opaque" THEN [val |-> "U", err |-> "opaque"] ELSE PV(m)
 
 PairOutcome(n, l, r, env) ==
   IF n.k = "regex" THEN LikeRegex(n, l)
@@ -198,9 +202,11 @@ Bool(n, v, env, st) ==
          IN IF a.err # "none" THEN a ELSE BV(KNot(a.val), a.st)
     [] n.k = "un" /\ n.op = "isunknown" ->
          LET a == Bool(n.x[1], v, env, st)
-         IN IF a.err # "none" THEN a ELSE BV(IF a.val = "U" THEN "T" ELSE "F", a.st)
+         IN IF a.err # "none"
+            THEN (IF "isunknown-swallows-hard" \in env.dev /\ a.err = "hard" THEN BV("T", a.st) ELSE a)
+            ELSE BV(IF a.val = "U" THEN "T" ELSE "F", a.st)
     [] n.k = "un" /\ n.op = "exists" ->
-         LET r == Exec(n.x, 1, v, env, st, env.lax)
+         LET r == Exec(n.x, 1, v, [env EXCEPT !.exm = env.lax], st, env.lax)
          IN IF env.lax
             THEN (* the first event decides: an item, or the failure *)
                  IF r.items # <<>> THEN BV("T", r.st)
@@ -221,8 +227,9 @@ Bool(n, v, env, st) ==
 -----------------------------------------------------------------------------
 (* Array subscripts *)
 
-GetIndex(chain, v, env, st) ==
-  LET r == Exec(chain, 1, v, env, st, env.lax)
+GetIndex(chain, v, env0, st) ==
+  LET env == [env0 EXCEPT !.exm = FALSE]
+      r == Exec(chain, 1, v, env, st, env.lax)
   IN IF Failed(r) THEN [err |-> r.err, st |-> r.st, idx |-> 0]
      ELSE IF Len(r.items) # 1 THEN [err |-> "verbose", st |-> r.st, idx |-> 0]
      ELSE IF r.items[1].t = "anyid" THEN [err |-> "opaque", st |-> r.st, idx |-> 0]
@@ -277,7 +284,10 @@ AnyItems(ch, i, xs, j, level, first, last, env, st, acc) ==
 UnaryEach(ch, i, op, xs, j, env, st, acc) ==
   IF j > Len(xs) THEN R(acc, "none", st)
   ELSE IF xs[j].t = "anyid" THEN R(acc, "opaque", st)
-  ELSE IF xs[j].t # "num" THEN R(acc, "verbose", st)
+  ELSE IF xs[j].t # "num" THEN
+         IF "unary-nonnum-exists" \in env.dev /\ env.exm /\ i = Len(ch)
+         THEN R(Append(acc, xs[j]), "none", st)       \* counted as found (deviation)
+         ELSE R(acc, "verbose", st)
   ELSE LET u == NumUnary(op, xs[j])
        IN IF ~u.ok THEN R(acc, ErrOf(u.err, env), st)
           ELSE LET r == Cont(ch, i, u.v, env, st)
@@ -414,7 +424,7 @@ Exec(ch, i, v, env, st0, unwrap) ==
 
 St0 == [polls |-> 0, ci |-> 0]
 Pol0 == [vh |-> "verbose", quot |-> "trunc"]
-Par0 == [cancelAt |-> 0, choice |-> <<>>, pol |-> Pol0, dev |-> {}]
+Par0 == [cancelAt |-> 0, choice |-> <<>>, pol |-> Pol0, dev |-> {}, exm |-> FALSE]
 
 (* Named deviations: behaviours of the implementation that contradict a    *)
 (* property, are recorded in /verif/known-findings.jsonl, and are modelled  *)
@@ -422,13 +432,22 @@ Par0 == [cancelAt |-> 0, choice |-> <<>>, pol |-> Pol0, dev |-> {}]
 (*   idx-drops-null   an array subscript skips JSON null elements (C14);    *)
 (*                    pinned by the repository test TestExecArrayIndex/     *)
 (*                    skip_nil, so it cannot be repaired under the rules.   *)
-DevNames == {"idx-drops-null"}
+(*   isunknown-swallows-hard   (p) is unknown answers true when p raises a  *)
+(*                    non-suppressible error other than cancellation (C08,  *)
+(*                    C11); pinned by TestExecuteUnaryBoolItem/             *)
+(*                    unary_is_unknown_true.                                *)
+(*   unary-nonnum-exists   when unary + or - is the last step and only      *)
+(*                    existence is asked (lax Exists, lax exists()), a      *)
+(*                    non-numeric operand counts as a found item instead of *)
+(*                    raising the operand error (C06, C13); pinned by       *)
+(*                    TestExecUnaryMathExpr/nan (okNoList).                 *)
+DevNames == {"idx-drops-null", "isunknown-swallows-hard", "unary-nonnum-exists"}
 Policies == [vh : {"verbose", "hard"}, quot : {"trunc", "exact"}]
 
 EnvOf(c, par) ==
   [root |-> c.doc, cur |-> c.doc, last |-> -1, vars |-> c.vars, lax |-> c.path.lax,
    lenient |-> c.path.lax, cancelAt |-> par.cancelAt, choice |-> par.choice,
-   pol |-> par.pol, dev |-> par.dev, useTZ |-> c.useTZ, zone |-> c.zone]
+   pol |-> par.pol, dev |-> par.dev, exm |-> par.exm, useTZ |-> c.useTZ, zone |-> c.zone]
 
 Eval(c, par) == Exec(c.path.chain, 1, c.doc, EnvOf(c, par), St0, c.path.lax)
 
